@@ -1,7 +1,7 @@
 #!/usr/bin/env python3
 """Evaluate one seeded change against the checks (development tool).
 
-  tools/seedeval.py <seed-dir> <property-id> [--all] [--thorough] [--keep]
+  tools/seedeval.py <seed-dir> <property-id> [--all] [--also=ID,ID] [--thorough] [--keep]
 
 <seed-dir> holds patch.diff, seeded_demo_test.go and meta.json. The change is applied
 to a scratch worktree of /repo's HEAD (never to /repo itself); we confirm that it
@@ -89,6 +89,11 @@ def main():
             for p in ALL:
                 if p != pid:
                     run(p, "quick")
+        for fl in flags:  # --also=C02,C09: these quick checks as well
+            if fl.startswith("--also="):
+                for p in fl[7:].split(","):
+                    if p and p != pid and ("%s/quick" % p) not in res["checks"]:
+                        run(p, "quick")
         res["caught_by"] = sorted(k for k, v in res["checks"].items() if v["exit"] == 1)
         res["inconclusive"] = sorted(k for k, v in res["checks"].items() if v["exit"] not in (0, 1))
         return res
